@@ -18,6 +18,7 @@ def Prim.wf : Prim → Val → Prop
   | .uuid, v => ∃ b, v = .bytes b ∧ b.length = 16
   | .uuidInts, v => ∃ b, v = .bytes b ∧ b.length = 16
   | .str max, v => ∃ b, v = .bytes b ∧ b.length ≤ max * 4 ∧ b.length < 2 ^ 31
+  | .strNE max, v => ∃ b, v = .bytes b ∧ b ≠ [] ∧ b.length ≤ max * 4 ∧ b.length < 2 ^ 31
   | .bytes max, v => ∃ b, v = .bytes b ∧ b.length ≤ max ∧ b.length < 2 ^ 31
   | .bytes17 ext, v => ∃ b, v = .bytes b ∧ writeBytes17Ok ext b = true
   | .fixed n, v => ∃ b, v = .bytes b ∧ b.length = n
@@ -81,6 +82,12 @@ theorem prim_RT (p : Prim) : RT p.enc p.dec p.wf := by
     obtain ⟨b, rfl, h1, h2⟩ := h
     have := readLenPrefixed_rt (max * 4) b rest h1 h2
     simp only [Prim.enc, Prim.dec, Val.getBytes, readStringMax, this, Prim.mapRd]
+  | strNE max =>
+    obtain ⟨b, rfl, hne, h1, h2⟩ := h
+    have := readLenPrefixed_rt (max * 4) b rest h1 h2
+    have he : b.isEmpty = false := by cases b <;> simp_all
+    simp only [Prim.enc, Prim.dec, Val.getBytes, readStringMax, this, he]
+    simp
   | bytes max =>
     obtain ⟨b, rfl, h1, h2⟩ := h
     have := readLenPrefixed_rt max b rest h1 h2
@@ -138,7 +145,7 @@ theorem schema_RT (s : Schema) : RT s.encode s.decode s.wf := by
     intro v rest h
     obtain ⟨t, x, rfl, ht, hx⟩ := h
     simp only [Schema.encode, Schema.decode, Val.fst, Val.snd, Val.getInt, List.append_assoc]
-    rw [prim_RT tag _ _ ht]; simp only [Val.getInt]
+    rw [prim_RT tag _ _ ht]; simp only
     rw [ih t x _ hx]
 
 theorem schema_encOk (s : Schema) (v : Val) (h : s.wf v) : s.encOk v = true := by
@@ -169,7 +176,6 @@ theorem schema_encOk (s : Schema) (v : Val) (h : s.wf v) : s.encOk v = true := b
     have h1 : tag.encOk (.int t) = true := by
       cases tag <;> try rfl
       · obtain ⟨b, hb, _⟩ := ht; cases hb
-      · obtain ⟨k, hk, _⟩ := ht; cases hk
     simp [Schema.encOk, Val.fst, Val.snd, Val.getInt, h1, ih t x hx]
 
 theorem packet_RT (ps : PSchema) (v : Val) (h : ps.wf v) : ps.decode (ps.encode v) = .ok (v, []) := by
